@@ -8,7 +8,7 @@
    IdealAllowed, so RelayAbs never demands something no relay can do.                                         *)
 EXTENDS RelayAbs, TLC, Json
 
-CONSTANTS MaxLen, Sizes, Reaches
+CONSTANTS MaxLen, Sizes, Reaches, Faults
 
 VARIABLES script, done, okAll
 svars == <<vars, script, done, okAll>>
@@ -33,7 +33,7 @@ EUp(c) ==
   /\ ~done /\ Len(script) < MaxLen /\ phase = "open" /\ appClosed = "no" /\ appSaw = "no"
   /\ sentUp' = sentUp + Sz(c)
   /\ dials' = IF dials = <<>> /\ reach = "ok" THEN <<want>> ELSE dials
-  /\ gotUp' = IF reach = "ok" /\ tgtClosed \in {"no", "fin"} THEN sentUp' ELSE gotUp
+  /\ gotUp' = IF reach = "ok" /\ tgtClosed \in {"no", "fin"} /\ ~fault THEN sentUp' ELSE gotUp
   /\ cleanTgt' = (cleanTgt /\ tgtClosed # "close")
   /\ script' = Append(script, [op |-> "up", size |-> c])
   /\ UNCHANGED <<phase, want, reach, sentDown, gotDown, appClosed, tgtClosed, cleanApp, appSaw, tgtSaw, fault, done, okAll>>
@@ -41,7 +41,7 @@ EUp(c) ==
 EDown(c) ==
   /\ ~done /\ Len(script) < MaxLen /\ dials # <<>> /\ tgtClosed = "no" /\ tgtSaw = "no"
   /\ sentDown' = sentDown + Sz(c)
-  /\ gotDown' = IF appClosed \in {"no", "fin"} /\ appSaw = "no" THEN sentDown' ELSE gotDown
+  /\ gotDown' = IF appClosed \in {"no", "fin"} /\ appSaw = "no" /\ ~fault THEN sentDown' ELSE gotDown
   /\ cleanApp' = (cleanApp /\ appClosed # "close")
   /\ script' = Append(script, [op |-> "down", size |-> c])
   /\ UNCHANGED <<phase, want, reach, dials, sentUp, gotUp, appClosed, tgtClosed, cleanTgt, appSaw, tgtSaw, fault, done, okAll>>
@@ -66,11 +66,19 @@ ETgtClose(h) ==
   /\ script' = Append(script, [op |-> "tgt_close", how |-> h])
   /\ UNCHANGED <<done, okAll>>
 
+\* C15: the link between client and server is cut (how: "rst" = both link connections reset, "fin" = both closed in
+\* an orderly way, "dark" = nothing passes any more); the ideal relay ends both outer sides
+EFault(h) ==
+  /\ ~done /\ Len(script) < MaxLen /\ sentUp > 0
+  /\ Fault
+  /\ script' = Append(script, [op |-> "cut", how |-> h])
+  /\ UNCHANGED <<done, okAll>>
+
 \* ideal system steps that are observable ends; taken eagerly before the script goes on
-IdealTgtEnd == /\ ~done /\ dials # <<>> /\ tgtSaw = "no" /\ appClosed # "no" /\ tgtClosed \in {"no", "fin"}
+IdealTgtEnd == /\ ~done /\ dials # <<>> /\ tgtSaw = "no" /\ (appClosed # "no" \/ fault) /\ tgtClosed \in {"no", "fin"}
                /\ TgtEnd("eof") /\ UNCHANGED <<script, done, okAll>>
 IdealAppEnd == /\ ~done /\ phase = "open" /\ appSaw = "no" /\ appClosed \in {"no", "fin"}
-               /\ (tgtClosed # "no" \/ (reach # "ok" /\ sentUp > 0))
+               /\ (tgtClosed # "no" \/ (reach # "ok" /\ sentUp > 0) \/ fault)
                /\ AppEnd("eof") /\ UNCHANGED <<script, done, okAll>>
 EndsPending == ENABLED IdealTgtEnd \/ ENABLED IdealAppEnd
 
@@ -83,6 +91,7 @@ SNext == \/ \E r \in Reaches : EOpen(r)
          \/ (~EndsPending /\ (\/ \E c \in Sizes : EUp(c) \/ EDown(c)
                               \/ ESync
                               \/ \E h \in Hows : EAppClose(h) \/ ETgtClose(h)
+                              \/ \E h \in Faults : EFault(h)
                               \/ Finish))
          \/ IdealTgtEnd \/ IdealAppEnd
 
